@@ -182,6 +182,20 @@ func c01Run(c *core.Ctx) {
 			}
 		}
 	}
+	for _, fam := range []string{"php7", "php5"} {
+		f := corpus.MustFam(fam)
+		wideItems(f, false, func(it *corpus.Item, src, why string) {
+			if !c.Next() {
+				return
+			}
+			for _, nocb := range []bool{false, true} {
+				cs := mkCase(src, f.V, "corpus program: "+why)
+				cs.NoCB = nocb
+				c01One(c, cs)
+			}
+			c.NontrivialH(core.Hash(src))
+		})
+	}
 	for _, src := range c01Semantic {
 		for _, cf := range c01Configs(true) {
 			if !c.Next() {
